@@ -20,14 +20,23 @@ def check(ctx):
     g = ctx.gen
     ctx.lean_gate()
     dt = torch.float64
-    n = 120 if ctx.tier == "quick" else 1200
+    n = 250 if ctx.tier == "quick" else 1500
     reqs, metas = [], []
     orig_backward = torch.Tensor.backward
     from pfhedge.nn.modules.loss import OCE
 
     def exp_utility(x):
         return 1 - (-x).exp()
-    for it in range(n):
+    # thorough tier: the protocol's configuration space is small and discrete - enumerate it COMPLETELY first
+    # (epochs x n_times x optimiser form x lazy x validation x explicit hedge list), then continue with random cases
+    import itertools
+    forced = []
+    if ctx.tier == "thorough":
+        forced = [dict(k=k_, n_times=nt_, optkind=ok_, lazy=lz_, validation=va_, hedge_list=hl_)
+                  for k_, nt_, ok_, lz_, va_, hl_ in itertools.product([0, 1, 2, 3], [1, 2, 3], ["cls", "instance"], [False, True], [False, True], [False, True])]
+        ctx.extra["exhaustive_configurations"] = len(forced)
+        ctx.extra["exhaustive_space"] = "epochs {0..3} x n_times {1,2,3} x optimiser {class, instance} x lazy x validation x hedge list"
+    for it in range(n + len(forced)):
         k = g.choice([0, 1, 2, 3, 7]) if ctx.tier == "thorough" else g.choice([0, 1, 2, 3])
         n_paths = g.choice([1, 4, 16])
         n_times = g.choice([1, 2, 3])
@@ -40,6 +49,9 @@ def check(ctx):
         seed = g.randint(0, 10 ** 6)
         crit_name = g.choice(["erm", "es", "oce"])
         wide = g.chance(0.5)      # optimiser instance over hedger.parameters() (model AND criterion parameters) instead of the model's only
+        if it < len(forced):
+            f_ = forced[it]
+            k, n_times, optkind, lazy, validation, hedge_list = f_["k"], f_["n_times"], f_["optkind"], f_["lazy"], f_["validation"], f_["hedge_list"]
         case = {"epochs": k, "n_paths": n_paths, "n_times": n_times, "with_init": with_init, "opt": optkind, "optimizer": optname,
                 "lazy": lazy, "validation": validation, "hedge_list": hedge_list, "seed": seed, "criterion": crit_name, "wide_optimizer": wide and optkind == "instance"}
         events = []
